@@ -583,7 +583,7 @@ def preemptions_before(points, i):
 
 
 def explore(make_run, check, bound=None, cache=True, max_exec=None,
-            stats=None):
+            stats=None, tick=None):
     """Depth-first exploration of all schedules.
 
     make_run(prefix, expect, on_point) -> Sched after one execution (fresh
@@ -613,6 +613,8 @@ def explore(make_run, check, bound=None, cache=True, max_exec=None,
 
         x = make_run(prefix, expect, on_point)
         st.executions += 1
+        if tick is not None:
+            tick()
         st.switches += x.nswitch
         st.max_points = max(st.max_points, len(x.points))
         if x.cut:
